@@ -86,7 +86,9 @@ Init == /\ \E ar \in Areas : R = Res("ok", S0(ar))
 
 (* action alphabets *)
 ApT == IF Mode = "C32" THEN "ap" ELSE "round"
-Bys == IF Mode = "C32" THEN (IF Rich THEN Validators ELSE {"v1", "v2", VN(NV)}) \cup {"c1", "x"} ELSE {""}
+\* C32 approvers: enough validators to reach the threshold before and after the epoch change, the one that quits (v_NV),
+\* the candidate's key account c1, the outsider x
+Bys == IF Mode = "C32" THEN (IF Rich THEN Validators ELSE {VN(i) : i \in 1..(Ceil2of3(NV) - 1)} \cup {VN(NV)}) \cup {"c1", "x"} ELSE {""}
 LastV == VN(NV)
 EpochActs == {AQuit(LastV, "l", LastV), ACommit("op")} \cup (IF Rich THEN {ABlock} ELSE {})
 
